@@ -712,6 +712,7 @@ pub fn step(st: &mut State, r: &mut Rng) -> Viol {
             st.content = st.content.iter().enumerate().filter(|(i, _)| !del.contains(i)).map(|(_, c)| c.clone()).collect();
             // write set: the deleted pages; any object may lose references to them; ancestors' Count
             let mut viol: Viol = None;
+            let reach1 = reachable(&s1);
             for (oid, o) in &s0.objects {
                 if del_ids.contains(oid) {
                     if s1.objects.contains_key(oid) {
@@ -730,6 +731,19 @@ pub fn step(st: &mut State, r: &mut Rng) -> Viol {
                 // objects that are not reachable from the trailer are not visited: they may stay as they were
                 if robj_eq(o, n) {
                     continue;
+                }
+                // several pages deleted by one call are removed one after the other: an object that hangs off a page
+                // deleted later loses its references to the pages deleted before it and then becomes unreachable,
+                // keeping references to that later page. Such an object may differ from the expectation only by
+                // references to deleted pages, and only if nothing reaches it any more.
+                if !reach1.contains(oid) {
+                    let mut rest = n.clone();
+                    for d in &del_ids {
+                        rest = strip_ref(&rest, *d);
+                    }
+                    if robj_eq(&rest, &exp) {
+                        continue;
+                    }
                 }
                 // Count may change on Pages nodes
                 let (mut e1, mut n1) = (exp.clone(), n.clone());
